@@ -25,9 +25,18 @@ HARD_CAP = 120          # requests / calls: more than this for one operation = u
 STREAM_METHODS = ('upload_stream', 'download_stream')
 
 
+DEFAULT_BUDGETS = {'local_max_tries': 5, 's3_max_tries': 4, 'b2_max_tries': 4, 'max_reauth': 3}
+
+
 def facts():
+    """Budgets and structural facts read off the source; if the source no longer has the expected shape
+    (the translated tie is broken and reported as such) the documented budgets are used for the search."""
     from translate import units_c12
-    return units_c12.collect()
+    try:
+        return units_c12.collect()
+    except Exception as e:      # noqa
+        core.log(f'C12: source facts not available ({type(e).__name__}: {e}); using the documented budgets')
+        return dict(DEFAULT_BUDGETS)
 
 
 def payload(n, salt=0):
@@ -222,6 +231,8 @@ def run_http(case):
         if 'after' in f:
             r['after'] = f['after']
         rules.append(r)
+    if case.get('persistent'):
+        rules[-1]['count'] = 10 ** 9
     svc.plan = fk.FaultPlan(rules)
     svc.log, svc.nrequests = [], 0
     res = sync(_call(b, case, data))
@@ -244,8 +255,8 @@ class LocalInjector:
     START = {'upload': 'mktemp_start', 'upload_stream': 'mktemp_start', 'download': 'read', 'download_stream': 'open_rb',
              'delete': 'unlink', 'list': 'scandir', 'exists': None}
 
-    def __init__(self, root, method, faults):
-        self.root, self.method, self.faults = str(root), method, list(faults)
+    def __init__(self, root, method, faults, persistent=False):
+        self.root, self.method, self.faults, self.persistent = str(root), method, list(faults), persistent
         self.attempt = -1
         self.calls = 0
         self.fired = 0
@@ -253,6 +264,8 @@ class LocalInjector:
     def current(self):
         if 0 <= self.attempt < len(self.faults):
             return self.faults[self.attempt]
+        if self.persistent and self.attempt >= 0:
+            return self.faults[-1]
         return None
 
     def start(self):
@@ -370,7 +383,7 @@ def run_local(case, root: Path):
         b.upload(NAME, data if download else OLD)
     if m == 'list':
         b.upload('data/zz/other', b'x')
-    inj = LocalInjector(root, m, case['faults'])
+    inj = LocalInjector(root, m, case['faults'], case.get('persistent', False))
     with inj.installed():
         res = sync(_call_sync(b, case, data))
     p = root / NAME
@@ -485,6 +498,30 @@ def random_cases(rng, f, n, chunks):
     return cases
 
 
+def persistent_cases(f):
+    """The fault never goes away: the operation must end in an error after a bounded number of requests."""
+    cases = []
+    c = 4
+    for backend in ('s3c', 'b2', 'local'):
+        for method in ('upload_stream', 'download_stream', 'upload', 'download', 'delete', 'exists', 'list'):
+            size = c + 1
+            if backend == 'local':
+                positions = [{'target': t, 'kind': 'oserror', **({'after': k} if k is not None else {})} for t, k in local_targets(method, size, c)]
+            else:
+                positions = [{'kind': kd, **({'after': k} if k is not None else {})}
+                             for kd, k in http_kinds(method, size, c, method in ('download', 'download_stream', 'exists', 'list'))]
+            for pos in positions:
+                cases.append({'backend': backend, 'method': method, 'size': size, 'chunk': c, 'faults': [dict(pos)], 'persistent': True})
+    for method in ('upload', 'upload_stream'):
+        for kind in ('500', '429', '401', 'drop'):
+            cases.append({'backend': 'b2', 'method': method, 'size': 5, 'chunk': 4, 'nested': True, 'persistent': True,
+                          'faults': [{'kind': kind, 'target': 'get_upload_url'}]})
+    for kind in ('500', '429', 'drop', '401'):
+        cases.append({'backend': 'b2', 'method': 'download', 'size': 5, 'chunk': 4, 'nested': True, 'persistent': True, 'reauth_faults': True,
+                      'faults': [{'kind': '401', 'target': 'download'}, {'kind': kind, 'target': 'authorize'}]})
+    return cases
+
+
 def nested_cases(f):
     """B2: faults at the nested / auxiliary endpoints (fresh upload URL per try, authorisation, expired token).
     Not part of the Coq model: judged by the oracle only (masked within the budget, bounded otherwise)."""
@@ -533,7 +570,11 @@ def oracle(case, res, f):
         bad.append((f'retried without bound: {res["requests"]} requests, ended with {o}', 'unbounded'))
         return bad
     transient = (L < budget(case, f)) and not has403
-    if case.get('reauth_faults'):       # one rejected token, then L - 1 faults of the authorisation request itself
+    if case.get('persistent'):
+        transient = False
+        if o == 'ok':
+            bad.append((f'the fault ({case["faults"][-1]}) never goes away but the operation returned normally after {res["requests"]} requests', 'no_error'))
+    elif case.get('reauth_faults'):       # one rejected token, then L - 1 faults of the authorisation request itself
         transient = (L - 1) < f['b2_max_tries']
     if transient and o != 'ok':
         bad.append((f'{L} consecutive fault(s) ({case["faults"][0]}) within the budget of {budget(case, f)} not masked: {o}', 'not_masked'))
@@ -619,7 +660,7 @@ def check_cases(cases, rep: Report, scratch: Path, f, with_model=True):
                 rep.violations.append({'what': f'{case["backend"]}.{case["method"]} ({case["size"]} bytes, chunk {case["chunk"]}): {what}',
                                        'signature': signature(case, kind), 'replay': {'case': case}})
     if with_model:
-        modelled = [(c, r) for c, r in zip(cases, results) if not c.get('nested') and c['method'] != 'list' or (c['method'] == 'list' and c['backend'] != 'local' and not c.get('nested'))]
+        modelled = [(c, r) for c, r in zip(cases, results) if not c.get('nested') and not c.get('persistent')]
         modelled = [(c, r) for c, r in modelled if not (c['backend'] == 'local' and c['method'] in ('exists', 'list'))]
         if modelled:
             model, err = run_model([c for c, _ in modelled])
@@ -674,7 +715,7 @@ def run(ctx) -> Report:
     chunks = [4, 2] if ctx.tier == 'quick' else [4, 1, 2, 7]
     cases = corpus() + enumerate_cases(f, chunks, ctx.tier != 'quick')
     cases += random_cases(ctx.rng, f, ctx.scale(600, 8000), [1, 2, 3, 4, 7] if ctx.tier != 'quick' else [2, 4, 5])
-    cases += nested_cases(f)
+    cases += nested_cases(f) + persistent_cases(f)
     check_cases(cases, rep, ctx.scratch, f)
     list_fault_probe(rep, ctx.scratch, f)
     rep.notes.append(f'budgets read from the source: local max_tries={f["local_max_tries"]}, s3 max_tries={f["s3_max_tries"]}, '
@@ -686,12 +727,9 @@ def run(ctx) -> Report:
 
 def search(ctx, broken) -> Report:
     rep = Report(rule=RULE)
-    try:
-        f = facts()
-    except Exception:       # the source no longer has the expected shape: fall back to the documented budgets
-        f = {'local_max_tries': 5, 's3_max_tries': 4, 'b2_max_tries': 4, 'max_reauth': 3}
+    f = facts()
     seeds = [b['case']['case'] for b in broken if isinstance(b.get('case'), dict) and isinstance(b['case'].get('case'), dict)]
-    cases = seeds + enumerate_cases(f, [4, 1, 3], True) + random_cases(ctx.rng, f, 3000, [1, 2, 3, 4, 7]) + nested_cases(f)
+    cases = seeds + enumerate_cases(f, [4, 1, 3], True) + random_cases(ctx.rng, f, 3000, [1, 2, 3, 4, 7]) + nested_cases(f) + persistent_cases(f)
     check_cases(cases, rep, ctx.scratch, f, with_model=False)
     list_fault_probe(rep, ctx.scratch, f)
     return rep
